@@ -6,32 +6,6 @@ import CBV.Lemmas.C14Renum
 namespace CBV.C14
 open CBV
 
-/-- blockMesh numbering: local coordinates (x, y, z) of corner `c` -/
-def bitsL (c : Nat) : List Bool := [c % 4 == 1 || c % 4 == 2, c % 4 == 2 || c % 4 == 3, decide (c ≥ 4)]
-
-def cornerOf (b : List Bool) : Nat :=
-  (if b.getD 2 false then 4 else 0) +
-    (match b.getD 0 false, b.getD 1 false with
-      | false, false => 0 | true, false => 1 | true, true => 2 | false, true => 3)
-
-/-- the corner permutation of the signed axis permutation `(π, f)`: new corner `k` (coordinates `b`)
-    is the old corner whose coordinate along axis `π[a]` is `b[a]`, reflected when `f[a]` -/
-def symOf (π : List Nat) (f : List Bool) : List Nat :=
-  (List.range 8).map (fun k =>
-    let b := bitsL k
-    cornerOf ((List.range 3).map (fun a' =>
-      let a := π.idxOf a'
-      xor (b.getD a false) (f.getD a false))))
-
-def evenPerms : List (List Nat) := [[0, 1, 2], [1, 2, 0], [2, 0, 1]]
-def oddPerms : List (List Nat) := [[0, 2, 1], [2, 1, 0], [1, 0, 2]]
-def evenFlips : List (List Bool) := [[false, false, false], [true, true, false], [true, false, true], [false, true, true]]
-def oddFlips : List (List Bool) := [[true, false, false], [false, true, false], [false, false, true], [true, true, true]]
-
-/-- determinant +1: even axis permutation with an even number of reflections, or odd with odd -/
-def rot24 : List (List Nat) :=
-  (evenPerms.flatMap fun π => evenFlips.map (symOf π)) ++ (oddPerms.flatMap fun π => oddFlips.map (symOf π))
-
 /-! ### a rectangular side seen from a centre straight above it -/
 
 theorem norm2_pos_of_ne (w : V3) (h : V3.norm2 w ≠ 0) : 0 < V3.norm2 w := by
